@@ -60,6 +60,23 @@ Bip143Preimage(tx, i) ==
            H("sha256d", B(CatMap(SerOut, tx.outs, 1))),                        \* hashOutputs
            B(tx.locktime \o HashTypeAll) >>)
 
+\* BIP143 for every hash type ht (an integer 1..255: base type in the low five bits, ANYONECANPAY = 128):
+\*   hashPrevouts  zero with ANYONECANPAY;   hashSequence  zero with ANYONECANPAY, SINGLE or NONE;
+\*   hashOutputs   all outputs (ALL), output i only (SINGLE with i within the outputs), zero otherwise
+Zero32 == [k \in 1..32 |-> 0]
+BaseType(ht) == ht % 32
+AnyoneCanPay(ht) == (ht \div 128) % 2 = 1
+Bip143PreimageHT(tx, i, ht) ==
+    Cat(<< B(tx.version),
+           IF AnyoneCanPay(ht) THEN B(Zero32) ELSE H("sha256d", B(CatMap(Outpoint, tx.ins, 1))),
+           IF AnyoneCanPay(ht) \/ BaseType(ht) \in {2, 3} THEN B(Zero32) ELSE H("sha256d", B(CatMap(LAMBDA in : in.seq, tx.ins, 1))),
+           B(Outpoint(tx.ins[i]) \o VarBytes(ScriptCode(tx.ins[i])) \o tx.ins[i].amount \o tx.ins[i].seq),
+           IF BaseType(ht) \notin {2, 3} THEN H("sha256d", B(CatMap(SerOut, tx.outs, 1)))
+           ELSE IF BaseType(ht) = 3 /\ i <= Len(tx.outs) THEN H("sha256d", B(SerOut(tx.outs[i])))
+           ELSE B(Zero32),
+           B(tx.locktime \o <<ht, 0, 0, 0>>) >>)
+DigestHT(tx, i, ht) == H("sha256d", Bip143PreimageHT(tx, i, ht))
+
 Preimage(tx, i) == IF tx.ins[i].kind \in SegwitKinds THEN Bip143Preimage(tx, i) ELSE LegacyPreimage(tx, i)
 Digest(tx, i) == H("sha256d", Preimage(tx, i))
 =============================================================================
